@@ -869,31 +869,42 @@ def gt_norecurse(ctx: Ctx) -> RuleResult:
 
     A DAG may hold dependency paths longer than the interpreter's recursion limit (a 1500-node chain builds and runs); a helper
     that calls itself once per edge of such a path raises RecursionError - the walk must use an explicit work list (or networkx)."""
+    from .ref import control_funcs, pkg_funcs
+
     r = RuleResult("GT-NORECURSE")
     edge_attrs = {"predecessors", "successors", "dependencies", "pred", "succ", "neighbors"}
+
+    def walks(funcs):
+        """(function, self-calls inside its loops over graph edges) for every function that iterates over graph edges."""
+        for f in funcs:
+            loops = [n for n in iter_own_nodes(f.node) if isinstance(n, (ast.For, ast.While, ast.ListComp, ast.SetComp, ast.GeneratorExp, ast.DictComp))]
+            along = []
+            for lp in loops:
+                srcs = [lp.iter] if isinstance(lp, ast.For) else ([g.iter for g in lp.generators] if not isinstance(lp, ast.While) else [lp])
+                hit = False
+                for src in srcs:
+                    for x in ast.walk(src):
+                        if isinstance(x, ast.Attribute) and x.attr in edge_attrs:
+                            hit = True
+                        if isinstance(x, ast.Name):
+                            for d in (ctx.reaching_defs(f, x.id, src) if isinstance(lp, ast.For) else []):
+                                if isinstance(d, ast.Assign) and any(isinstance(y, ast.Attribute) and y.attr in edge_attrs for y in ast.walk(d.value)):
+                                    hit = True
+                if hit:
+                    along.append(lp)
+            if not along:
+                continue
+            selfcalls = [c for lp in along for c in ast.walk(lp) if isinstance(c, ast.Call) and isinstance(c.func, ast.Name) and c.func.id == f.name
+                         or (isinstance(c, ast.Call) and isinstance(c.func, ast.Attribute) and c.func.attr == f.name and dotted(c.func.value) == "self"
+                             and f.cls is not None)]
+            yield f, selfcalls
+
+    cf = control_funcs(ctx)
+    if cf:
+        r.require(any(sc for _, sc in walks(cf)), "positive control for GT-NORECURSE did not match")
     n_walks = 0
-    for f in ctx.funcs():
-        loops = [n for n in iter_own_nodes(f.node) if isinstance(n, (ast.For, ast.While, ast.ListComp, ast.SetComp, ast.GeneratorExp, ast.DictComp))]
-        along = []
-        for lp in loops:
-            srcs = [lp.iter] if isinstance(lp, ast.For) else ([g.iter for g in lp.generators] if not isinstance(lp, ast.While) else [lp])
-            hit = False
-            for src in srcs:
-                for x in ast.walk(src):
-                    if isinstance(x, ast.Attribute) and x.attr in edge_attrs:
-                        hit = True
-                    if isinstance(x, ast.Name):
-                        for d in (ctx.reaching_defs(f, x.id, src) if isinstance(lp, ast.For) else []):
-                            if isinstance(d, ast.Assign) and any(isinstance(y, ast.Attribute) and y.attr in edge_attrs for y in ast.walk(d.value)):
-                                hit = True
-            if hit:
-                along.append(lp)
-        if not along:
-            continue
+    for f, selfcalls in walks(pkg_funcs(ctx)):
         n_walks += 1
-        selfcalls = [c for lp in along for c in ast.walk(lp) if isinstance(c, ast.Call) and isinstance(c.func, ast.Name) and c.func.id == f.name
-                     or (isinstance(c, ast.Call) and isinstance(c.func, ast.Attribute) and c.func.attr == f.name and dotted(c.func.value) == "self"
-                         and f.cls is not None)]
         r.ob(not selfcalls, {"walk along graph edges in": f.short, "recursive": bool(selfcalls)})
         if selfcalls:
             r.violate(f"{f.short}: the dependency graph is walked by recursion along its edges", f.loc(selfcalls[0]),
